@@ -27,13 +27,20 @@ def journal_map(img):
         for k in range(ln): m[lb + k] = pb + k
     return fs, [m[i] for i in range(len(m))] if all(i in m for i in range(len(m))) else None
 
-def write_journal(img, spec, pool):
-    fs, jmap = journal_map(img)
-    if jmap is None: raise ValueError('journal has holes')
-    bs = fs.bs; f = open(img, 'r+b')
-    def rb(p): f.seek(p * bs); return f.read(bs)
-    def wb(p, d): assert len(d) == bs; f.seek(p * bs); f.write(d)
-    jsb = bytearray(rb(jmap[0]))
+def ext_journal_sb_block(bs): return 2 if bs == 1024 else 1
+
+def write_journal(img, spec, pool, ext=None):
+    """ext = path of an external journal device (mke2fs -O journal_dev): journal block numbers are then absolute block numbers of that device and the journal superblock follows its ext2 superblock"""
+    if ext is None:
+        fs, jmap = journal_map(img); j0 = 0
+        if jmap is None: raise ValueError('journal has holes')
+    else:
+        fs = e4ref.Reader(img).fs; import os
+        jmap = list(range(os.path.getsize(ext) // fs.bs)); j0 = ext_journal_sb_block(fs.bs)
+    bs = fs.bs; f = open(img, 'r+b'); jf = f if ext is None else open(ext, 'r+b')
+    def rb(p): jf.seek(p * bs); return jf.read(bs)
+    def wb(p, d): assert len(d) == bs; jf.seek(p * bs); jf.write(d)
+    jsb = bytearray(rb(jmap[j0]))
     if struct.unpack_from('>I', jsb, 0)[0] != MAGIC: raise ValueError('no journal superblock')
     jbs, maxlen, first = struct.unpack_from('>III', jsb, 12)
     if jbs != bs: raise ValueError('journal block size')
@@ -144,12 +151,13 @@ def write_journal(img, spec, pool):
     else: put(pos[0], bytes(bs))
     if csum in (2, 3):
         struct.pack_into('>I', jsb, 0xfc, 0); struct.pack_into('>I', jsb, 0xfc, crc32c(0xffffffff, bytes(jsb[:1024])))
-    put(0, jsb)
+    put(j0, jsb)
     # filesystem superblock: needs_recovery (+ checksum)
     f.seek(1024); sb = bytearray(f.read(1024))
     struct.pack_into('<I', sb, 0x60, struct.unpack_from('<I', sb, 0x60)[0] | 4)
     if fs.has_mcsum: struct.pack_into('<I', sb, 0x3fc, crc32c(0xffffffff, bytes(sb[:0x3fc])))
     f.seek(1024); f.write(sb); f.close()
+    if ext is not None: jf.close()
     # ---- reference model -------------------------------------------------------------------------------------
     # accepted prefix: all transactions, except that the one damaged in a way that ends the log (and everything after it) does not count
     enders = ('missing-commit', 'commit-wrong-seq', 'commit-csum', 'zeroed-desc')
